@@ -1056,13 +1056,29 @@ func GenDesign(t *verifsim.Tape, name, focus string) *spec.Design {
 		e.Temporary = t.Draw("api-err-tmp", 2) == 0
 		g.d.Errors = []*spec.ErrorDef{e}
 		for _, s := range g.d.Services {
+			// a service may map the same error name to a response of its own: the closer mapping wins
+			var own *spec.ErrorDef
+			if t.Draw("service-remaps-api-error", 3) == 0 {
+				o := *e
+				o.Status = map[int]int{418: 429, 429: 451, 451: 418}[e.Status]
+				own = &o
+			}
+			used := false
 			for _, m := range s.Methods {
 				if t.Draw("uses-api-error", 2) == 0 {
 					cp := *e
 					cp.Inherit = "api"
+					if own != nil {
+						cp.Status, cp.Inherit = own.Status, "service"
+						used = true
+					}
 					m.Errors = append(m.Errors, &cp)
 					g.feat("errors:api-level")
 				}
+			}
+			if used {
+				s.Errors = append(s.Errors, own)
+				g.feat("errors:api-level-remapped-by-service")
 			}
 		}
 	}
